@@ -37,7 +37,7 @@ def recFrags (e : Enc) : List Bytes → Enc
 mutual
 /-- the recursive writer: every sequence and item with undefined length and its delimiter -/
 def recElem (e : Enc) : Elem → Except WErr Enc
-  | .prim tag vr len v => e.primitiveElement ⟨tag, vr, len⟩ v
+  | .prim tag vr len v => e.encodePrimitiveElement ⟨tag, vr, len⟩ v
   | .seq tag _ items =>
     exBind (e.elementHeader ⟨tag, .SQ, undefinedLen⟩) fun e1 =>
     exBind (recItems e1 items) fun e2 => .ok e2.seqDelimiter
@@ -115,7 +115,7 @@ theorem writeAll_elem : ∀ (el : Elem), el.WF → ∀ (enc : Enc) (st : List Se
   | .prim tag vr len v, hwf, enc, st => by
     obtain ⟨h1, h2⟩ := hwf
     simp only [Elem.tokens, h1, h2, if_false, Writer.writeAll, Writer.write, Writer.writeImpl, recElem, idle]
-    cases h : enc.primitiveElement ⟨tag, vr, len⟩ v with
+    cases h : enc.encodePrimitiveElement ⟨tag, vr, len⟩ v with
     | ok e' => simp [exBind]
     | error x => simp [exBind]
   | .seq tag len items, hwf, enc, st => by
